@@ -217,24 +217,33 @@ class Func(object):
     def ops(self, enabled=None):
         return [s['op'] for i, s in enumerate(self.stmts) if enabled is None or i in enabled]
 
-    def source(self, enabled=None, name=None):
-        """C text; statements whose index is not in `enabled` are replaced by
-        a copy of parameter a (so every variable stays defined)"""
+    def source(self, enabled=None, name=None, consts=None, trace=False):
+        """C text.  A statement whose index is not in `enabled` is replaced by
+        the value it had on the failing input (`consts`, read through a volatile
+        so that nothing is folded) or by a copy of parameter a.  With `trace`
+        (host only) every variable is also written to an extra array."""
         lines = []
         ret_t = "uint64_t" if self.ret == 64 else "uint32_t"
-        lines.append("%s %s(uint32_t a, uint32_t b, uint32_t c, struct S *m)\n{" % (ret_t, name or self.name))
+        lines.append("%s %s(uint32_t a, uint32_t b, uint32_t c, struct S *m%s)\n{" % (
+            ret_t, name or self.name, ", uint64_t *tr_" if trace else ""))
         acc32, acc64 = [], []
         for i, s in enumerate(self.stmts):
             o = OPS_BY_NAME[s['op']]
             ty = "uint64_t" if o.ty == 64 else "uint32_t"
             v = s['res']
             if enabled is not None and i not in enabled:
-                lines.append("    %s %s = (%s)a;" % (ty, v, ty))
+                if consts is not None:
+                    lines.append("    %s %s; { volatile %s t_ = 0x%x%s; %s = t_; }" % (
+                        ty, v, ty, consts[i], "ull" if o.ty == 64 else "u", v))
+                else:
+                    lines.append("    %s %s = (%s)a;" % (ty, v, ty))
             else:
                 d = dict(s['lits'])
                 d['r'] = v
                 body = o.tmpl.format(*s['args'], **d)
                 lines.append("    %s %s; %s" % (ty, v, body))
+            if trace:
+                lines.append("    tr_[%d] = (uint64_t)%s;" % (i, v))
             (acc64 if o.ty == 64 else acc32).append(v)
         # fold every variable into the result so that nothing is dead
         e32 = " ^ ".join(["a"] + ["(%s * %du)" % (v, 2 * k + 3) for k, v in enumerate(acc32)])
@@ -274,9 +283,12 @@ class CGen(object):
         stmts = []
         only64 = False
         pool = [o for o in OPS if allow64ops or not o.only64]
+        # register-divisor divisions become library calls on ARM without hardware divide
+        # (the function is then rejected there): keep them, but rare
+        wts = [0.25 if o.name in ('udiv32', 'urem32', 'sdiv32', 'srem32') else 1.0 for o in pool]
         for i in range(nstmts):
             for _ in range(50):
-                o = r.choice(pool)
+                o = r.choices(pool, wts)[0]
                 if any(t == 64 for t in o.argty) and not v64:
                     # need a 64-bit value first
                     o = OPS_BY_NAME[r.choice(['mk64', 'umull', 'smull', 'sext64', 'ld_u64k'])]
@@ -285,10 +297,11 @@ class CGen(object):
             for t in o.argty:
                 src = v64 if t == 64 else v32
                 # prefer recent values so that results flow through the function
-                if r.random() < 0.6:
-                    args.append(r.choice(src[-4:]))
-                else:
-                    args.append(r.choice(src))
+                for _ in range(4):
+                    cand = r.choice(src[-4:]) if r.random() < 0.6 else r.choice(src)
+                    if cand not in args:
+                        break
+                args.append(cand)
             res = "v%d" % i
             stmts.append(dict(op=o.name, res=res, args=args, lits=self.literals()))
             (v64 if o.ty == 64 else v32).append(res)
